@@ -323,3 +323,15 @@ Theorem c19_checker_routing : forall rr h,
   in_ranges rr h = true <-> ((0 <= h)%Z /\ exists lo hi, In (lo, hi) rr /\ (lo <= h < hi)%Z).
 Proof. exact in_ranges_spec. Qed.
 Print Assumptions c19_checker_routing.
+
+(* the deviation tolerance rejects a wrong variance formula even for data with a
+   large offset and a small spread (1000000, 1000001, 1000003): population
+   instead of sample deviation, and the 0.1 % error n vs n-1 makes for n = 500 *)
+Example c19_checker_tolerance_example :
+  let e := exact [QB 4696837146684686336; QB 4696837155274620928; QB 4696837172454490112] in
+  let o d := mkO 3 4696837146684686336 4696837172454490112 4696837158137932459 4703696870881361920 d in
+  snap_diff e (o 4609558181236713650%N) = [] /\
+  snap_diff e (o 4608295794776921307%N) = [6]%nat /\
+  snap_diff e (o 4609551298431524565%N) = [6]%nat.
+Proof. exact deviation_tolerance_examples. Qed.
+Print Assumptions c19_checker_tolerance_example.
